@@ -3,7 +3,7 @@ import importlib
 import sys
 import traceback
 
-from common import Driver, Infra, Run, audit, lake_build
+from common import Driver, Infra, Run, SeamBypassed, audit, lake_build
 
 LEVELS = {"C05": "other", "C20": "other"}
 
@@ -27,6 +27,10 @@ def main(argv):
             mod.check(run, Driver())
         except Infra:
             raise
+        except SeamBypassed as e:
+            run.corr_fail("instrumentation", {"seam": str(e)}, "the observed objects are reached through the module attributes the harness replaces", "bypassed",
+                          "the correspondence cannot be established on this tree (no conclusion about the property)")
+            return run.finish()
         except Exception as e:  # noqa
             # an exception escaping from the IMPLEMENTATION (innermost frames under the repository) on an input the generators
             # consider valid is a failure of the property on that input, not a tool failure
